@@ -693,7 +693,15 @@ def dependent_parent(repo: Repo, rep, P: str):
     verdict = "?"
     # try: r = <type>.parent / except AttributeError: return <type> / else: return r(instance)
     tries = [st for st in ivtn.body if isinstance(st, ast.Try)]
-    if ivt is None and len(tries) == 1 and len([st for st in ivtn.body if not (isinstance(st, ast.Expr) and isinstance(st.value, ast.Constant))]) == 1:
+    nondoc = [st for st in ivtn.body if not (isinstance(st, ast.Expr) and isinstance(st.value, ast.Constant))]
+    if ivt is None and len(tries) == 1 and len(nondoc) == 2 and nondoc[0] is tries[0] and not tries[0].orelse \
+            and all(h.body and isinstance(h.body[-1], (ast.Return, ast.Raise)) for h in tries[0].handlers):
+        # what follows a try whose handlers all leave the function is the try's else part
+        import copy as _copy
+        t2 = _copy.copy(tries[0])
+        t2.orelse = [nondoc[1]]
+        tries, nondoc = [t2], [t2]
+    if ivt is None and len(tries) == 1 and len(nondoc) == 1:
         t = tries[0]
         if len(t.body) == 1 and isinstance(t.body[0], ast.Assign) and len(t.body[0].targets) == 1 and isinstance(t.body[0].targets[0], ast.Name) \
                 and norm(t.body[0].value) == "self.value_type.parent" and len(t.handlers) == 1 and t.handlers[0].type is not None \
